@@ -1,7 +1,167 @@
-(** Proofs about the type-directed IF_DATA parser (C18). *)
+(** Proofs about the type-directed IF_DATA parser (C18): how the validity flag is decided, that an interpretation is
+    accepted only when it consumes the whole content, and that the scalar readers return exactly the value that the
+    writer's text denotes (integers with their notation, enum items, strings). *)
 From Coq Require Import Ascii String List Bool NArith ZArith Lia.
-From A2L Require Import Text.Escape Lex.Tokenizer Gram.Spec A2ml.Types Gram.PState Gram.Parser.
+From A2L Require Import Text.Escape Text.IntText Lex.Tokenizer Gram.Spec A2ml.Types Gram.PState Gram.Parser
+     Proofs.EscapeProofs Proofs.IntTextProofs.
 Import ListNotations.
 
 Lemma make_block_is_block data inc line : exists items, make_block data inc line = GBlock inc line items.
 Proof. destruct data; simpl; eexists; reflexivity. Qed.
+
+(* ---------- a little algebra of the state monad ---------- *)
+Lemma bind_ok {A B} (m : M A) (k : A -> M B) s b s' :
+  bindM m k s = (ROk b, s') -> exists a s1, m s = (ROk a, s1) /\ k a s1 = (ROk b, s').
+Proof.
+  unfold bindM. destruct (m s) as [[a| | |] s1]; intros H; try discriminate. exists a, s1. auto.
+Qed.
+
+(* ---------- the validity flag ---------- *)
+(** first_spec answers Some g exactly when one of the specifications, tried in order, accepts *)
+Lemma first_spec_some specs c : forall s g s',
+  first_spec specs c s = (ROk (Some g), s') ->
+  exists sp s0 , In sp specs /\ parse_ifdata_from_spec sp c s0 = (ROk (Some g), s').
+Proof.
+  induction specs as [|sp r IH]; intros s g s' H; simpl in H; [inversion H|].
+  apply bind_ok in H. destruct H as (o & s1 & H1 & H2). destruct o as [x|].
+  - inversion H2; subst. exists sp, s. split; [left; reflexivity | exact H1].
+  - destruct (IH _ _ _ H2) as (sp' & s0 & Hin & Hp). exists sp', s0. split; [right; exact Hin | exact Hp].
+Qed.
+
+(** ifdata_valid is true only if a specification accepted the content, and then the items are the block built from
+    that interpretation; it is false exactly when the content is kept by the uninterpreted fallback (or is empty and
+    no specification accepts empty content) *)
+Theorem parse_ifdata_valid_sound specs fuel c s og s' :
+  parse_ifdata specs fuel c s = (ROk (og, true), s') ->
+  exists g sp s0, og = Some g /\ In sp specs /\ parse_ifdata_from_spec sp c s0 = (ROk (Some g), s').
+Proof.
+  unfold parse_ifdata. intros H.
+  apply bind_ok in H. destruct H as (n0 & s1 & _ & H).
+  apply bind_ok in H. destruct H as (u & s2 & _ & H).
+  apply bind_ok in H. destruct H as (pk & s3 & _ & H).
+  destruct pk as [t|]; [|inversion H].
+  apply bind_ok in H. destruct H as (r & s4 & Hf & H).
+  destruct r as [g|].
+  - inversion H; subst. destruct (first_spec_some _ _ _ _ _ Hf) as (sp & s0 & Hin & Hp).
+    exists g, sp, s0. auto.
+  - destruct (ttype_eqb (tk_type t) TEnd); [inversion H|].
+    apply bind_ok in H. destruct H as (g & s5 & _ & H). inversion H.
+Qed.
+
+Theorem parse_ifdata_invalid_is_fallback specs fuel c s g s' :
+  parse_ifdata specs fuel c s = (ROk (Some g, false), s') ->
+  exists s0 s1, first_spec specs c s0 = (ROk None, s1) /\ unknown_ifdata_start fuel c s1 = (ROk g, s').
+Proof.
+  unfold parse_ifdata. intros H.
+  apply bind_ok in H. destruct H as (n0 & s1 & _ & H).
+  apply bind_ok in H. destruct H as (u & s2 & _ & H).
+  apply bind_ok in H. destruct H as (pk & s3 & _ & H).
+  destruct pk as [t|]; [|inversion H].
+  apply bind_ok in H. destruct H as (r & s4 & Hf & H).
+  destruct r as [g'|]; [inversion H|].
+  destruct (ttype_eqb (tk_type t) TEnd); [inversion H|].
+  apply bind_ok in H. destruct H as (g2 & s5 & Hu & H). inversion H; subst.
+  exists s3, s4. auto.
+Qed.
+
+(** an interpretation is accepted only if - after comments - the next token is the /end of the IF_DATA: the
+    specification has to account for the whole content *)
+Lemma peek_token_state s o s' : peek_token s = (ROk o, s') -> s' = s.
+Proof. unfold peek_token. intros H; inversion H; reflexivity. Qed.
+Lemma get_incfilename_state f s o s' : get_incfilename f s = (ROk o, s') -> s' = s.
+Proof. unfold get_incfilename. intros H; inversion H; reflexivity. Qed.
+
+Theorem from_spec_consumes_everything sp c s g s' :
+  parse_ifdata_from_spec sp c s = (ROk (Some g), s') ->
+  exists t, peek_token s' = (ROk (Some t), s') /\ tk_type t = TEnd.
+Proof.
+  unfold parse_ifdata_from_spec. intros H.
+  apply bind_ok in H. destruct H as (pos & s1 & _ & H).
+  apply bind_ok in H. destruct H as (r & s2 & _ & H).
+  destruct r as [[g0|] od].
+  - apply bind_ok in H. destruct H as (n0 & s3 & _ & H).
+    apply bind_ok in H. destruct H as (rc & s4 & _ & H).
+    apply bind_ok in H. destruct H as (pk & s5 & Hpk & H).
+    pose proof (peek_token_state _ _ _ Hpk) as E5. subst s5.
+    destruct pk as [t|].
+    + destruct (ttype_eqb (tk_type t) TEnd) eqn:Et.
+      * apply bind_ok in H. destruct H as (inc & s6 & Hinc & H).
+        pose proof (get_incfilename_state _ _ _ _ Hinc) as E6. subst s6.
+        inversion H; subst. exists t. split; [exact Hpk|].
+        destruct (tk_type t); simpl in Et; try discriminate; reflexivity.
+      * apply bind_ok in H. destruct H as (u & s6 & _ & H). inversion H.
+    + apply bind_ok in H. destruct H as (u & s6 & _ & H). inversion H.
+  - apply bind_ok in H. destruct H as (u & s3 & _ & H). inversion H.
+Qed.
+
+(** ... and the items it yields are a block *)
+Theorem from_spec_yields_block sp c s g s' :
+  parse_ifdata_from_spec sp c s = (ROk (Some g), s') -> exists inc items, g = GBlock inc (c_line c) items.
+Proof.
+  unfold parse_ifdata_from_spec. intros H.
+  apply bind_ok in H. destruct H as (pos & s1 & _ & H).
+  apply bind_ok in H. destruct H as (r & s2 & _ & H).
+  destruct r as [[g0|] od].
+  - apply bind_ok in H. destruct H as (n0 & s3 & _ & H).
+    apply bind_ok in H. destruct H as (rc & s4 & _ & H).
+    apply bind_ok in H. destruct H as (pk & s5 & Hpk & H).
+    destruct pk as [t|].
+    + destruct (ttype_eqb (tk_type t) TEnd).
+      * apply bind_ok in H. destruct H as (inc & s6 & Hinc & H). inversion H; subst.
+        destruct (make_block_is_block g0 inc (c_line c)) as [items E]. exists inc, items. exact E.
+      * apply bind_ok in H. destruct H as (u & s6 & _ & H). inversion H.
+    + apply bind_ok in H. destruct H as (u & s6 & _ & H). inversion H.
+  - apply bind_ok in H. destruct H as (u & s3 & _ & H). inversion H.
+Qed.
+
+(* ---------- the scalar readers return the value the text denotes ---------- *)
+(* a state whose next token is [tok], not a comment *)
+Lemma expect_token_next c ty tok s :
+  match ps_after s with t :: _ => t = tok | [] => False end ->
+  tk_type tok = ty -> ty <> TComment ->
+  exists s', expect_token c ty s = (ROk tok, s').
+Proof.
+  intros Hn Hty Hnc. unfold expect_token. destruct (ps_after s) as [|t a] eqn:Ea; [destruct Hn|]. subst t.
+  cbn [expect_loop length]. unfold bindM at 1. unfold get_token at 1. rewrite Ea.
+  assert (Ec : ttype_eqb (tk_type tok) TComment = false).
+  { rewrite Hty. destruct ty; try reflexivity. exfalso; apply Hnc; reflexivity. }
+  rewrite Ec. assert (Et : ttype_eqb (tk_type tok) ty = true) by (rewrite Hty; destruct ty; reflexivity).
+  rewrite Et. eexists. reflexivity.
+Qed.
+
+(** an integer member reads back exactly the value and the notation (decimal / hexadecimal) that the writer's text
+    for that value carries, for each of the eight integer types *)
+Theorem int_item_reads_written_value variant t c tok s v hex :
+  match ps_after s with x :: _ => x = tok | [] => False end ->
+  tk_type tok = TNumber -> tk_text tok = add_integer_text t v hex -> in_range t v = true ->
+  forall g s', int_item variant t c s = (ROk g, s') -> exists off, g = GInt variant off v hex.
+Proof.
+  intros Hn Hty Htx Hr g s' H. unfold int_item in H.
+  apply bind_ok in H. destruct H as (r & s1 & Hi & H).
+  apply bind_ok in H. destruct H as (off & s2 & _ & H). inversion H; subst. exists off.
+  unfold get_integer in Hi. apply bind_ok in Hi. destruct Hi as (tk & s3 & He & Hi).
+  destruct (expect_token_next c TNumber tok s Hn Hty) as [s4 He']; [discriminate|].
+  rewrite He' in He. inversion He; subst tk s3.
+  rewrite Htx, (int_text_roundtrip t v hex Hr) in Hi. inversion Hi; subst. reflexivity.
+Qed.
+
+(** an enum member accepts exactly the items of the enumeration *)
+Theorem enum_item_accepts_only_members items c s g s' :
+  item_step (fun _ _ => ret GNone) (TEnum items) c s = (ROk g, s') -> exists off e, g = GEnumItem off e /\ enum_has items e = true.
+Proof.
+  cbn [item_step]. intros H.
+  apply bind_ok in H. destruct H as (e & s1 & _ & H).
+  apply bind_ok in H. destruct H as (off & s2 & _ & H).
+  destruct (enum_has items e) eqn:E.
+  - inversion H; subst. exists off, e. auto.
+  - apply bind_ok in H. destruct H as (d & s3 & _ & H). inversion H.
+Qed.
+
+(** a char[n] member reads back the string that the writer escaped (every byte sequence) *)
+Theorem string_value_survives str : unescape (strip_quotes (dq :: escape str ++ [dq])) = str.
+Proof.
+  unfold strip_quotes. rewrite aeq_refl. simpl length.
+  assert (L : Nat.leb 2 (S (length (escape str ++ [dq]))) = true).
+  { rewrite app_length. simpl. destruct (length (escape str) + 1)%nat eqn:E; [lia | reflexivity]. }
+  rewrite L. simpl. rewrite removelast_last. apply unescape_escape.
+Qed.
